@@ -3,6 +3,8 @@ package props
 import (
 	"fmt"
 	"sort"
+	"strconv"
+	"strings"
 	"testing"
 
 	"pgregory.net/rapid"
@@ -35,6 +37,38 @@ func c11Check(c MetricCase) (r evid.Result) {
 	r.Class(c.Params.Instant(), "instant")
 	depth := aggDepth(top)
 	r.Class(true, fmt.Sprintf("depth=%d", depth))
+	// Levels (range grouping included) that all name one label, and their by/without order.
+	if top.Grouping != nil {
+		for _, x := range top.Grouping.Labels {
+			order, all := "", true
+			for cur := top; cur != nil; cur = cur.Inner {
+				if cur.Grouping == nil {
+					if cur.Kind == "vecagg" {
+						all = false
+					}
+					continue
+				}
+				named := false
+				for _, l := range cur.Grouping.Labels {
+					named = named || l == x
+				}
+				if !named {
+					all = false
+					continue
+				}
+				if cur.Grouping.Without {
+					order += "w"
+				} else {
+					order += "b"
+				}
+			}
+			if all && len(order) >= 3 {
+				r.Class(true, "one-label-at-3-levels")
+				r.Class(strings.Contains(order, "bwb"), "by-without-by(outer first)")
+				break
+			}
+		}
+	}
 
 	// Group structure of the top-level aggregation at every step (from the model's input).
 	groupsWith2, kBelowGroup := 0, false
@@ -228,6 +262,45 @@ func c11Gen(t *rapid.T) MetricCase {
 	if top.Op == "topk" || top.Op == "bottomk" {
 		top.HasK = true
 		top.K = rapid.SampledFrom([]int{1, 1, 2, 3, 5, 100}).Draw(t, "k")
+	}
+	// A chain in which every level names the same label, in any order of by / without: what one
+	// level removes must stay removed whatever the levels around it say.
+	if rapid.IntRange(0, 4).Draw(t, "same-label-chain") == 0 {
+		x := rapid.SampledFrom(append([]string{"id"}, d.GroupLabels...)).Draw(t, "chain-label")
+		level := func(label string) *gen.Grouping {
+			g := &gen.Grouping{Labels: []string{x}}
+			if rapid.Bool().Draw(t, label+"-without") {
+				g.Without = true
+				for _, l := range []string{"msg", "val", "size", "dur"} {
+					if rapid.Bool().Draw(t, label+"-wo-"+l) {
+						g.Labels = append(g.Labels, l)
+					}
+				}
+			} else {
+				for _, l := range append([]string{"id", "nosuch"}, d.GroupLabels...) {
+					if l != x && rapid.Bool().Draw(t, label+"-by-"+l) {
+						g.Labels = append(g.Labels, l)
+					}
+				}
+			}
+			if rapid.Bool().Draw(t, label+"-shuffle") && len(g.Labels) > 1 {
+				g.Labels[0], g.Labels[len(g.Labels)-1] = g.Labels[len(g.Labels)-1], g.Labels[0]
+			}
+			return g
+		}
+		cur := base
+		if base.Grouping != nil && rapid.Bool().Draw(t, "chain-range-level") {
+			base.Grouping = level("chain-r")
+		}
+		n := rapid.IntRange(1, 2).Draw(t, "chain-inner")
+		for i := 0; i < n; i++ {
+			cur = &gen.Metric{Kind: "vecagg", Op: rapid.SampledFrom(datagen.SimpleAggs).Draw(t, "chain-op"), Inner: cur,
+				Grouping: level("chain-" + strconv.Itoa(i)), GroupingFirst: rapid.Bool().Draw(t, "chain-gf")}
+		}
+		top.Inner = cur
+		if top.Op != "sort" && top.Op != "sort_desc" {
+			top.Grouping = level("chain-top")
+		}
 	}
 	c.Recs = d.Recs
 	c.M = *top
